@@ -882,25 +882,27 @@ def check_dataset_histories(run, tree):
         ds = new_ds()
         g = new_group(tree, hooks)
         call_method(tree, hooks, ds, "__setitem__", "a", g)
-        ds._attrs["meta"]["time"] = 1
         ev = _ev(tree, hooks, DS_Q + ".__init__")
+        ev.obj_getattr(ds, "meta")["time"] = 1
         ok = call_method(tree, hooks, ds, "__len__") == 1 and ev.iterate(ds) == ["a"] and call_method(tree, hooks, ds, "get", "a", None) is g and \
             call_method(tree, hooks, ds, "get", "zz", "d") == "d" and list(call_method(tree, hooks, ds, "keys")) == ["a"]
         p = call_method(tree, hooks, ds, "pop", "a")
         ok = ok and p is g and call_method(tree, hooks, ds, "__len__") == 0
         call_method(tree, hooks, ds, "__setitem__", "b", g)
         call_method(tree, hooks, ds, "clear")
-        return ok and not ds._attrs["groups"] and not ds._attrs["meta"], "groups %s meta %s" % (list(ds._attrs["groups"]), ds._attrs["meta"])
+        return ok and not ds._attrs["groups"] and not ev.obj_getattr(ds, "meta"), "groups %s meta %s" % (list(ds._attrs["groups"]), ev.obj_getattr(ds, "meta"))
 
     @case("copy is shallow for groups and copies the metadata", "ds.copy().meta['x'] = 1 changes ds.meta, or groups are deep-copied")
     def c6():
         ds = new_ds()
         g = new_group(tree, hooks)
         call_method(tree, hooks, ds, "__setitem__", "a", g)
-        ds._attrs["meta"]["time"] = 1
+        ev = _ev(tree, hooks, DS_Q + ".__init__")
+        ev.obj_getattr(ds, "meta")["time"] = 1
         c = call_method(tree, hooks, ds, "copy")
-        return c is not ds and c._attrs["groups"].get("a") is g and c._attrs["meta"] == {"time": 1} and c._attrs["meta"] is not ds._attrs["meta"], \
-            "groups shared=%s meta copied=%s" % (c._attrs["groups"].get("a") is g, c._attrs["meta"] is not ds._attrs["meta"])
+        cm_, dm_ = ev.obj_getattr(c, "meta"), ev.obj_getattr(ds, "meta")
+        return c is not ds and c._attrs["groups"].get("a") is g and cm_ == {"time": 1} and cm_ is not dm_, \
+            "groups shared=%s meta copied=%s" % (c._attrs["groups"].get("a") is g, cm_ is not dm_)
 
     @case("removing a group that is absent raises KeyError (pop and del)", "ds.pop('missing') returns None / del ds['missing'] passes silently")
     def c7():
@@ -942,6 +944,24 @@ def check_dataset_histories(run, tree):
         ok2 = list(ds2._attrs["groups"]) == ["x", "y"]
         return ok and ok2, "after update({'a','b'}, b=, c=): keys %s, b is the %s; update(list of pairs): keys %s" % (
             list(cont), "keyword's group" if cont.get("b") is g["b-kw"] else "mapping's group", list(ds2._attrs["groups"]))
+
+    @case("metadata filled in place (ds.meta[k] = v, ds.meta.update(...)) belongs to that dataset: another dataset and a deep copy have their own dictionary",
+          "two datasets share one meta dictionary (a class-level `meta = {}`): the time / ncells of the second output overwrite those of the first; deepcopy(ds).meta IS ds.meta")
+    def c10():
+        ds1, ds2 = new_ds(), new_ds()
+        ev = _ev(tree, hooks, DS_Q + ".__init__")
+        m1, m2 = ev.obj_getattr(ds1, "meta"), ev.obj_getattr(ds2, "meta")
+        if not (isinstance(m1, dict) and isinstance(m2, dict)):
+            return False, "meta is %r / %r" % (m1, m2)
+        m1["time"] = "T1"
+        own = m1 is not m2 and "time" not in m2
+        dc = ev.py_copy(ds1, deep=True)
+        md = ev.obj_getattr(dc, "meta") if isinstance(dc, PyObj) else None
+        copied = isinstance(md, dict) and md is not m1 and md.get("time") == "T1"
+        if copied:
+            md["time"] = "T2"
+            copied = m1.get("time") == "T1"
+        return own and copied, "second dataset has its own meta: %s; deep copy has its own meta holding the same entries: %s" % (own, copied)
 
     for label, family, fn in cases:
         construct = "%s::history[%s]" % (DS_Q, label)
@@ -1137,7 +1157,9 @@ def check_copies_fold(run, tree):
     evd = _ev(tree, hooks, DS_Q + ".__init__")
     ds = evd.instantiate(tree.cls(DS_Q), [], {}, None)
     call_method(tree, hooks, ds, "__setitem__", "gas", make_group(tree, hooks))
-    ds._attrs["meta"] = {"time": "T", "nested": {"k": 1, "deeper": [1, {"leaf": 2}]}}
+    # the metadata are filled IN PLACE, as RamsesDataset.__init__ does (self.meta.update(...)): the dictionary the class gave the instance
+    ds_meta = evd.obj_getattr(ds, "meta")
+    ds_meta.update({"time": "T", "nested": {"k": 1, "deeper": [1, {"leaf": 2}]}})
     gobj = ds._attrs["groups"]["gas"]
     for label, fn in variants(ds):
         construct = "%s::%s" % (DS_Q, label)
@@ -1148,19 +1170,19 @@ def check_copies_fold(run, tree):
                 problems.append("returns %r" % (r,))
             else:
                 gr = r._attrs.get("groups", {})
-                meta = r._attrs.get("meta")
+                meta = evd.obj_getattr(r, "meta")
                 if list(gr) != ["gas"]:
                     problems.append("groups %s" % list(gr))
                 elif label == "copy.deepcopy":
                     if gr["gas"] is gobj or gr["gas"]._attrs["_container"]["a"] is gobj._attrs["_container"]["a"]:
                         problems.append("the deep copy shares a group or a member with the original")
-                    if meta != ds._attrs["meta"] or meta is ds._attrs["meta"] or meta["nested"] is ds._attrs["meta"]["nested"]:
+                    if meta != ds_meta or meta is ds_meta or meta["nested"] is ds_meta["nested"]:
                         problems.append("metadata of the deep copy: %r" % (meta,))
                 else:
                     if gr["gas"] is not gobj:
                         problems.append("copy() does not share the group objects (container copies are documented shallow)")
-                    if meta != ds._attrs["meta"] or meta is ds._attrs["meta"]:
-                        problems.append("metadata %s" % ("shared with the original" if meta is ds._attrs["meta"] else "lost: %r" % (meta,)))
+                    if meta != ds_meta or meta is ds_meta:
+                        problems.append("metadata %s" % ("shared with the original" if meta is ds_meta else "lost: %r" % (meta,)))
             run.ob(construct, not problems, "src/osyris/core/dataset.py", "; ".join(problems) or "%s: %s" % (label, "independent" if label == "copy.deepcopy" else "new Dataset, same groups, own metadata dict"),
                    "ds.copy().meta['x'] = 1 changes ds.meta; deepcopy(ds)['gas']['a'] *= 2 changes ds")
         except (Raised, ProgramRaised) as e:
